@@ -29,9 +29,9 @@ def main(run):
                 "labels, differences and '.', constants, .repeat, .include) assembled at bases 0o1000 0o40000 0o157776 0o177776; "
                 "non-trivial = accepted program with at least one instruction and at least one absolute address word (a word whose "
                 "predicted value moves with the base); distinct by abstract program")
-    recs, inc = explore(run, "RelocAlphabet", "LayoutIncFiles", 4 if thorough else 3, 1, BASES, label="AsmCore relocation exhaustive")
+    recs, inc = explore(run, "RelocAlphabet", "RelocIncFiles", 4 if thorough else 3, 1, BASES, label="AsmCore relocation exhaustive")
     tasks = replay_all(run, recs, inc, {"harness_link": True, "check_syms": False}, nontrivial)
-    recs2, inc2 = explore(run, "RelocAlphabet", "LayoutIncFiles", 7, 2, BASES, simulate=(2000 if thorough else 200), depth=15,
+    recs2, inc2 = explore(run, "RelocAlphabet", "RelocIncFiles", 7, 2, BASES, simulate=(2000 if thorough else 200), depth=15,
                           seed=run.seed + 3, label="AsmCore relocation simulation (<= 7 stmts x 2 files)")
     tasks2 = replay_all(run, recs2, inc2, {"harness_link": True, "check_syms": False}, nontrivial)
     hist = {}
